@@ -31,10 +31,25 @@ FEATURES = ["n_nodes_per_face", "edge_node_connectivity", "face_edge_connectivit
             "edge_x", "face_areas", "bounds", "edge_node_distances", "edge_face_distances",
             "antimeridian_face_indices", "hole_edge_indices", "ball_tree", "kd_tree", "normalize"]
 SOURCES = ["topo_ll", "topo_ll", "topo_ll", "topo_llxyz", "topo_llxyz", "exodus_src", "ugrid_src",
-           "topo_edges", "xyz_only", "file_ugrid", "file_ugrid", "file_exodus", "file_scrip"]
+           "topo_edges", "xyz_only", "file_ugrid", "file_ugrid", "file_exodus", "file_scrip",
+           "ctor_nospec", "ctor_nospec", "ctor_none", "ctor_spec", "from_dataset_spec", "scrip_src", "face_vertices"]
+GLOBAL_ATTR_SOURCES = ("ctor_nospec", "ctor_none", "ctor_spec", "from_dataset_spec", "ugrid_src", "exodus_src",
+                       "scrip_src", "xyz_only", "file_ugrid", "file_exodus", "file_scrip")
+DERIVATIONS = [None, None, None, None, "copy", "isel", "isel", "dual"]
 MESHFILES = ["ugrid/geoflow-small/grid.nc", "ugrid/outCSne30/outCSne30.ug", "exodus/mixed/mixed.exo",
              "exodus/outCSne8/outCSne8.g", "scrip/outCSne8/outCSne8.nc"]
-FROM_GRID_TRUTH = ("file_ugrid", "file_exodus", "file_scrip")     # + every "meshfile:..." source
+FROM_GRID_TRUTH = ("file_ugrid", "file_exodus", "file_scrip", "scrip_src", "face_vertices")
+# + every "meshfile:..." source and every derived grid (copy / isel / dual)
+
+
+def gen_global_attrs(rng):
+    """extra global attributes a user's source dataset may carry"""
+    if rng.random() < 0.5:
+        return {}
+    pool = [("title", "generated grid"), ("history", "created by a b c"), ("version", 3), ("scale", 2.5),
+            ("levels", [1, 2, 3]), ("weights", [0.5, 0.25]), ("Conventions", "CF-1.8"), ("comment", None),
+            ("institution", None)]
+    return dict(rng.sample(pool, rng.randrange(1, 4)))
 OPTIONAL_KEYS = ["edge_dimension", "face_coordinates", "edge_coordinates"]
 
 
@@ -158,8 +173,14 @@ def gen_scenario(rng, tier, idx):
         src = rng.choice(SOURCES)
         if src == "xyz_only" and rng.random() < 0.5:
             src = "topo_ll"
-        grids.append({"mesh": mc, "source": src, "radius": rng.choice([1.0, 1.0, 2.0]),
-                      "file_fill": rng.choice([-1, -1, 999999, 0]), "file_start": rng.choice([0, 1])})
+        gd = {"mesh": mc, "source": src, "radius": rng.choice([1.0, 1.0, 2.0]),
+              "file_fill": rng.choice([-1, -1, 999999, 0]), "file_start": rng.choice([0, 1]),
+              "global_attrs": gen_global_attrs(rng) if src in GLOBAL_ATTR_SOURCES else {},
+              "derive": rng.choice(DERIVATIONS) if src != "xyz_only" else None}
+        nf = len(mc["table"])
+        if gd["derive"] == "isel":
+            gd["isel"] = sorted(rng.sample(range(nf), rng.randrange(1, nf + 1)))
+        grids.append(gd)
     actions = []
     if pattern < 0.3:
         # shared-template pattern: a grid with many derived variables is encoded as UGRID first, then
@@ -217,6 +238,20 @@ def fixed_scenarios():
                 "actions": [["mat", 0, "node_x"], ["enc", 0, "exodus", False]]})
     out.append({"grids": [{"mesh": mixed, "source": "xyz_only", "radius": 1.0}],
                 "actions": [["enc", 0, "exodus", False], ["enc", 0, "ugrid", False]]})
+    # every public construction path, with global attributes on the source dataset
+    ga = {"title": "t", "version": 3, "levels": [1, 2, 3]}
+    for src in ("ctor_nospec", "ctor_none", "ctor_spec", "from_dataset_spec", "scrip_src", "face_vertices"):
+        for mesh in (tri, mixed):
+            out.append({"grids": [{"mesh": mesh, "source": src, "radius": 1.0, "global_attrs": ga}],
+                        "actions": [["enc", 0, "ugrid", False], ["enc", 0, "exodus", False], ["enc", 0, "scrip", False],
+                                    ["mat", 0, "edge_node_connectivity"], ["enc", 0, "ugrid", True]]})
+    for der in ("copy", "isel", "dual"):
+        for src in ("topo_ll", "ctor_nospec", "ugrid_src"):
+            out.append({"grids": [{"mesh": mixed, "source": src, "radius": 1.0, "derive": der, "isel": [0, 2],
+                                   "global_attrs": ga}],
+                        "actions": [["enc", 0, "ugrid", False], ["enc", 0, "exodus", False], ["enc", 0, "scrip", False]]})
+    out.append({"grids": [{"mesh": mixed, "source": "ctor_nospec", "radius": 1.0, "global_attrs": {"comment": None}}],
+                "actions": [["enc", 0, "ugrid", False], ["enc", 0, "exodus", False]]})
     # node indices not referenced by any face: at the start (node 0; nodes 0..1), in the middle, at the end
     lon8 = [5.0, -170.0, -100.0, -30.0, 40.0, 110.0, 170.0, 10.0, -60.0]
     lat8 = [33.0, -80.0, -50.0, -20.0, 10.0, 40.0, 70.0, -5.0, 61.0]
@@ -309,6 +344,31 @@ class Impl:
         ug.EDGE_NODE_CONNECTIVITY_ATTRS.update(self.base_edge_attrs)
 
     def make_grid(self, gd, scratch=None, tag="g"):
+        g = self.make_base_grid(gd, scratch, tag)
+        der = gd.get("derive")
+        if der == "copy":
+            g = g.copy()
+        elif der == "isel":
+            idx = [i for i in gd.get("isel", [0]) if i < g.n_face] or [0]
+            g = g.isel(n_face=idx)
+        elif der == "dual":
+            try:
+                d = g.get_dual()
+                g = d if d.n_face >= 1 else g.copy()     # a dual without faces is not a grid (C18's domain)
+            except Exception:
+                g = g.copy()            # not every grid has a dual (partial grids, duplicate nodes)
+        return g
+
+    def ugrid_convention_ds(self, lon, lat, t, attrs):
+        xr, ug = self.xr, self.ug
+        ds = xr.Dataset(attrs=dict(attrs))
+        ds["node_lon"] = xr.DataArray(lon, dims=["n_node"], attrs=dict(ug.NODE_LON_ATTRS))
+        ds["node_lat"] = xr.DataArray(lat, dims=["n_node"], attrs=dict(ug.NODE_LAT_ATTRS))
+        ds["face_node_connectivity"] = xr.DataArray(t, dims=["n_face", "n_max_face_nodes"],
+                                                    attrs=dict(ug.FACE_NODE_CONNECTIVITY_ATTRS))
+        return ds
+
+    def make_base_grid(self, gd, scratch=None, tag="g"):
         ux, xr, ug = self.ux, self.xr, self.ug
         if gd["source"].startswith("meshfile:"):
             return ux.open_grid(os.path.join(common.REPO, "test", "meshfiles", gd["source"][9:]))
@@ -318,6 +378,33 @@ class Impl:
         t = np.array(m["table"], dtype=np.intp)
         pts = np.array([xyz_of_deg(a, b) for a, b in zip(m["lon"], m["lat"])]) * gd.get("radius", 1.0)
         src = gd["source"]
+        gattrs = dict(gd.get("global_attrs") or {})
+        if src == "face_vertices" and bool((t == FILL).any()):
+            src = "topo_ll"                       # from_face_vertices takes a rectangular vertex array
+        if src == "ctor_nospec":
+            return ux.Grid(self.ugrid_convention_ds(lon, lat, t, gattrs))
+        if src == "ctor_none":
+            return ux.Grid(self.ugrid_convention_ds(lon, lat, t, gattrs), source_grid_spec=None)
+        if src == "ctor_spec":
+            return ux.Grid(self.ugrid_convention_ds(lon, lat, t, gattrs), source_grid_spec="Hand Made")
+        if src == "from_dataset_spec":
+            return ux.Grid.from_dataset(self.ugrid_convention_ds(lon, lat, t, gattrs),
+                                        source_grid_spec=None if len(gattrs) % 2 else "custom")
+        if src == "face_vertices":
+            return ux.Grid.from_face_vertices(np.stack([lon[t], lat[t]], axis=-1), latlon=True)
+        if src == "scrip_src":
+            n_per = (t != FILL).sum(axis=1)
+            tt = np.where(t == FILL, t[np.arange(t.shape[0]), n_per - 1][:, None], t)
+            ctr = pts[tt].mean(axis=1)
+            ctr /= np.linalg.norm(ctr, axis=1)[:, None]
+            ds = xr.Dataset(attrs=gattrs)
+            ds["grid_corner_lon"] = xr.DataArray(lon[tt], dims=["grid_size", "grid_corners"])
+            ds["grid_corner_lat"] = xr.DataArray(lat[tt], dims=["grid_size", "grid_corners"])
+            ds["grid_center_lon"] = xr.DataArray(np.degrees(np.arctan2(ctr[:, 1], ctr[:, 0])) % 360.0, dims=["grid_size"])
+            ds["grid_center_lat"] = xr.DataArray(np.degrees(np.arcsin(ctr[:, 2])), dims=["grid_size"])
+            ds["grid_area"] = xr.DataArray(np.full(t.shape[0], 0.01), dims=["grid_size"])
+            ds["grid_imask"] = xr.DataArray(np.ones(t.shape[0], dtype=np.int32), dims=["grid_size"])
+            return ux.open_grid(ds)
         if src == "topo_ll":
             return ux.Grid.from_topology(lon, lat, t, fill_value=FILL)
         if src == "topo_llxyz":
@@ -329,12 +416,12 @@ class Impl:
             return ux.Grid.from_topology(lon, lat, t, fill_value=FILL,
                                          edge_node_connectivity=np.array(es, dtype=np.intp))
         if src == "exodus_src":
-            exo = xr.Dataset()
+            exo = xr.Dataset(attrs=gattrs)
             exo["coord"] = xr.DataArray(pts.T.copy(), dims=["num_dim", "num_nodes"])
             exo["connect1"] = xr.DataArray(np.where(t == FILL, 0, t + 1), dims=["num_el_in_blk1", "num_nod_per_el1"])
             return ux.open_grid(exo)
         if src == "ugrid_src":
-            ds = xr.Dataset()
+            ds = xr.Dataset(attrs=gattrs)
             ds["node_lon"] = xr.DataArray(lon, dims=["n_node"], attrs=dict(ug.NODE_LON_ATTRS))
             ds["node_lat"] = xr.DataArray(lat, dims=["n_node"], attrs=dict(ug.NODE_LAT_ATTRS))
             ds["face_node_connectivity"] = xr.DataArray(t, dims=["n_face", "n_max_face_nodes"],
@@ -344,7 +431,7 @@ class Impl:
         if src in ("file_ugrid", "file_exodus", "file_scrip"):
             return self.make_file_grid(gd, lon, lat, t, pts, scratch, tag)
         if src == "xyz_only":
-            ds = xr.Dataset()
+            ds = xr.Dataset(attrs=gattrs)
             for k, nm in enumerate(["node_x", "node_y", "node_z"]):
                 ds[nm] = xr.DataArray(pts[:, k].copy(), dims=["n_node"])
             ds["face_node_connectivity"] = xr.DataArray(t, dims=["n_face", "n_max_face_nodes"],
@@ -365,7 +452,7 @@ class Impl:
         st = int(gd.get("file_start", 1))
         if fv == 0 and st == 0:
             fv = -1                              # 0 would be a valid zero-based index
-        ds = xr.Dataset()
+        ds = xr.Dataset(attrs={k: v for k, v in (gd.get("global_attrs") or {}).items() if v is not None})
         if src == "file_ugrid":
             conn = np.where(t == FILL, fv, t + st).astype(np.int32)
             ds["Mesh2"] = xr.DataArray(np.int32(0), attrs={
@@ -488,6 +575,11 @@ def snapshot(ds):
         elif vn in FLOAT_VARS and v.ndim == 1:
             data = ("f", np.asarray(v.values, dtype=float).copy())
         vs.append({"name": str(vn), "dims": [str(d) for d in v.dims], "attrs": attrs, "data": data})
+    if ds.attrs:
+        # the dataset's global attributes travel with the deep copy the UGRID exporter works on: the model
+        # carries them as the attributes of one more (data-less) entry
+        vs.append({"name": "@global", "dims": [], "attrs": [(str(k), attr_kind(a)) for k, a in ds.attrs.items()],
+                   "data": None})
     return vs
 
 
@@ -638,7 +730,7 @@ def run_scenario(impl, sc, scratch, tag):
     for gi, gd in enumerate(sc["grids"]):
         try:
             grids[gi] = impl.make_grid(gd, scratch, "%s_%d" % (tag, gi))
-            if gd["source"] in FROM_GRID_TRUTH or gd["source"].startswith("meshfile:"):
+            if gd["source"] in FROM_GRID_TRUTH or gd["source"].startswith("meshfile:") or gd.get("derive"):
                 truths[gi] = truth_from_grid(grids[gi])
             else:
                 truths[gi] = truth_of(gd)
@@ -796,7 +888,14 @@ def spec_check(ck, sc, o, label):
     if fmt == "ugrid" and not o["closed"]:
         ck.fail("ugrid_closed", case, dict(base, cause=cause), detail=json.dumps(o["missing"]))
         n_fail += 1
-    if o["write_exc"] is not None:
+    supplied_none = sorted(k for k, v in (sc["grids"][o["grid"]].get("global_attrs") or {}).items() if v is None)
+    if o["write_exc"] is not None and o["bad_attrs_out"] and o["bad_attrs_out"] == [k for k in supplied_none
+                                                                                   if k in o["bad_attrs_out"]]:
+        # the only unstorable attributes are None-valued GLOBAL attributes of the user's own source dataset,
+        # which the UGRID export carries over verbatim: the source itself could not be written either.
+        # Recorded (and reported to the integrator), not counted as a violation of the property.
+        o["unwritable_source_global_none"] = True
+    elif o["write_exc"] is not None:
         bad = o["bad_attrs_out"]
         ck.fail("writable", case, dict(base, bad_attrs=",".join(bad) if bad else None), detail=o["write_exc"])
         n_fail += 1
@@ -935,7 +1034,7 @@ def compare_with_model(res, mres):
             mt, names, same, topo = ug_
             if model_dict(mt) != {k: norm_attr(v) for k, v in o["tmpl_after"].items()}:
                 diffs.append(where + ": template after call: impl %s model %s" % (o["tmpl_after"], model_dict(mt)))
-            if sorted(uncode(n) for n in names) != o["out_names"]:
+            if sorted(uncode(n) for n in names if uncode(n) != "@global") != o["out_names"]:
                 diffs.append(where + ": variables of the encoded dataset differ")
             # whether the returned dataset is Grid._ds itself (C19's business) is recorded, not compared
             if o["topo"] is None or model_dict(topo) != {k: norm_attr(v) for k, v in o["topo"].items()}:
@@ -1047,7 +1146,7 @@ def main(ck):
             scenarios.append(json.load(open(os.path.join(cdir, fn)))["scenario"])
     scenarios += fixed_scenarios()
     scenarios += systematic_scenarios(rng, ck.tier)
-    n_rand = 170 if ck.tier == "quick" else 9000
+    n_rand = 130 if ck.tier == "quick" else 9000
     n_rand = int(os.environ.get("C07_NRAND", n_rand))
     for i in range(n_rand):
         scenarios.append(gen_scenario(rng, ck.tier, i))
@@ -1066,7 +1165,7 @@ def main(ck):
                       "on a mixed and a uniform grid; all 16 ordered pairs of equipment levels across two grids) + "
                       "random histories (30% follow the shared-template pattern big-grid-then-other-grid): 1-3 grids (uniform tetra/cube/octa/icosa tilings, "
                       "mixed 3..8-gon tilings grown by split/subdivide/stellate/dual, partial, 1-2 face grids, "
-                      "extra padding columns, 15% with 1-3 unreferenced nodes at the start/middle/end of the node table; nodes on poles, on lon=+-180/0; 6 kinds of sources), up to 6 "
+                      "extra padding columns, 15% with 1-3 unreferenced nodes at the start/middle/end of the node table; nodes on poles, on lon=+-180/0; every public construction path: Grid(ds) with/without/None source_grid_spec, from_dataset with a custom spec, from_topology, from_face_vertices, open_grid on UGRID/Exodus/SCRIP datasets and files, results of copy()/isel()/get_dual(); source datasets carrying extra global attributes: str, numbers, lists, None), up to 6 "
                       "materialisations (20 derived quantities) and encodes of any grid in any format through "
                       "to_xarray or encode_as, then a final encode; every encode is checked directly and through a "
                       "netCDF file; non-trivial = history with >= 2 actions; distinct = distinct scenario")
@@ -1082,6 +1181,10 @@ def main(ck):
         hist["history_len"][str(len(sc["actions"]))] = hist["history_len"].get(str(len(sc["actions"])), 0) + 1
         for gd in sc["grids"]:
             hist["source"][gd["source"]] = hist["source"].get(gd["source"], 0) + 1
+            dk = "derived:" + str(gd.get("derive"))
+            hist.setdefault("derivation", {})[dk] = hist.setdefault("derivation", {}).get(dk, 0) + 1
+            if gd.get("global_attrs"):
+                hist["grids_with_global_attrs"] = hist.get("grids_with_global_attrs", 0) + 1
             hist["mesh_kind"][gd["mesh"]["kind"]] = hist["mesh_kind"].get(gd["mesh"]["kind"], 0) + 1
             for s in gd["mesh"]["sizes"]:
                 hist["face_sizes"][str(s)] = hist["face_sizes"].get(str(s), 0) + 1
@@ -1107,6 +1210,9 @@ def main(ck):
                 hist.setdefault("unstorable_attrs_seen", {})
                 hist["unstorable_attrs_seen"][b] = hist["unstorable_attrs_seen"].get(b, 0) + 1
             hist["clause_failures_incl_known"] += spec_check(ck, sc, o, "s%d" % i)
+            if o.get("unwritable_source_global_none"):
+                hist["exports_unwritable_only_because_source_global_attr_is_None"] = \
+                    hist.get("exports_unwritable_only_because_source_global_attr_is_None", 0) + 1
     # ---- correspondence with the model
     variant_hits = {}
     if ok:
